@@ -87,7 +87,8 @@ Proof. exact jwks_public_only. Qed.
 Print Assumptions C16_jwks_public_only.
 
 (** all histories (any number of Execute / reload / JWKS operations, any files, any
-    configuration, token cache on or off, other key holders in the registry): every
+    configuration, token cache on or off, other key holders in the registry, Execute on the
+    catalogue finalizer or on any rule-level variant of it): every
     observation of the run is what the specification demands — every token handed out
     (also a reused one) verifies against the key set served at that moment, names and is
     signed by the then active key, carries the system claims; every JWKS answer is the
@@ -119,16 +120,52 @@ Theorem C16_F1_pinned_refuted :
 Proof. exact F1_refuted. Qed.
 Print Assumptions C16_F1_pinned_refuted.
 
-(** non-vacuity: reuse on, another key holder, a reload rotates the active key *)
+(** rule-level variants (jwtFinalizer.WithConfig): an override is accepted iff it consists
+    of ttl (> 1s) and/or claims, and the variant is the catalogue configuration with exactly
+    the given members replaced — signer, issuer, key id, cache and header stay the catalogue's *)
+Theorem C16_variant_overlays_catalogue : forall c o ce,
+  with_config c o = Ok ce <->
+  (o_unknown o = false /\ (forall t, o_ttl o = Some t -> (second < t)%Z) /\
+   ce = {| c_keyid := c_keyid c; c_name := c_name c; c_ttl := overlay (o_ttl o) (c_ttl c);
+           c_claims := overlay (o_claims o) (c_claims c); c_cache := c_cache c;
+           c_before := c_before c; c_after := c_after c |}).
+Proof. exact variant_overlay. Qed.
+Print Assumptions C16_variant_overlays_catalogue.
+
+(** a variant's token: exp is the variant's effective ttl after iat — its own ttl if the
+    rule gives one, else the catalogue finalizer's (else 5 minutes) —, the issuer is the
+    catalogue's, custom claims come from its own template if the rule gives one, else from
+    the catalogue's *)
+Theorem C16_variant_token : forall c o ce st sub now jti t,
+  with_config c o = Ok ce ->
+  sign st (issuer ce) sub (ttl_of ce) now jti (custom_of ce sub) = Ok t ->
+  let ttl := match o_ttl o with Some x => x | None => ttl_of c end in
+  let tmpl := match o_claims o with Some x => x | None => tmpl_of c end in
+  issuer ce = issuer c /\
+  exists iat exp,
+    mget "iat" (t_claims t) = Some (VInt iat) /\ mget "nbf" (t_claims t) = Some (VInt iat) /\
+    mget "exp" (t_claims t) = Some (VInt exp) /\
+    (ttl / second <= exp - iat <= (ttl + 999999999) / second)%Z /\
+    (forall s, ttl = (s * second)%Z -> (exp - iat = s)%Z) /\
+    (forall k, ~ In k reserved ->
+       mget k (t_claims t) = option_map (resolve sub) (tmpl_get k tmpl)).
+Proof. exact variant_token. Qed.
+Print Assumptions C16_variant_token.
+
+(** non-vacuity: reuse on, another key holder, a reload rotates the active key, rule-level
+    variants with only a ttl, only claims, and an invalid one *)
 Theorem C16_nonvacuous :
   guard_F1 nv_cfg (PemOk [nv_entry 3 "old"]) nv_ops = false /\
-  exists t1 t2,
+  exists t1 t2 t3 t4,
     snd (run true nv_cfg (PemOk [nv_entry 3 "old"]) nv_ops) =
-      [XToken t1 true; XToken t1 true; XDone; XToken t2 true;
+      [XToken t1 true; XToken t1 true; XDone; XToken t2 true; XToken t3 true; XToken t4 true; XErr;
        XJwks [spec_jwk (nv_entry 5 "other"); spec_jwk (nv_entry 4 "new"); spec_jwk (nv_entry 3 "old")]] /\
     t_kid t1 = "old" /\ t_kid t2 = "new" /\ t_alg t2 = "PS384" /\
     mget "sub" (t_claims t2) = Some (VStr "alice") /\ mget "who" (t_claims t2) = Some (VStr "alice") /\
-    mget "exp" (t_claims t2) = Some (VInt 1093%Z).
+    mget "exp" (t_claims t2) = Some (VInt 1093%Z) /\
+    mget "exp" (t_claims t3) = Some (VInt 1033%Z) /\ mget "who" (t_claims t3) = Some (VStr "alice") /\
+    mget "exp" (t_claims t4) = Some (VInt 1094%Z) /\ mget "scope" (t_claims t4) = Some (VStr "read") /\
+    mget "who" (t_claims t4) = None.
 Proof. exact nonvacuous. Qed.
 Print Assumptions C16_nonvacuous.
 
